@@ -62,8 +62,9 @@ fn write_source_line_from_stdlib(
 }
 
 fn underline(f: &mut fmt::Formatter<'_>, col_start: usize, len: usize) -> fmt::Result {
-    write!(f, "{: <1$}", "", col_start)?;
-    writeln!(f, "{:^<1$}", "", len,)
+    // Not `{: <1$}`: a formatting width cannot be larger than 65535 and a line can be longer.
+    write!(f, "{}", " ".repeat(col_start))?;
+    writeln!(f, "{}", "^".repeat(len))
 }
 
 fn write_source_span_at(f: &mut fmt::Formatter<'_>, file: &FileOrLib, span: Span) -> fmt::Result {
